@@ -157,7 +157,9 @@ func runSeq(prop, tier, name string, shard, nshards int, budget time.Duration) i
 // (the cooperative scheduler cannot interleave inside unsynchronised code).
 func raceScenarios(prop, tier string) []*Scenario {
 	switch prop {
-	case "C14":
+	case "C14", "C13":
+		// (C13: two goroutines reporting through one handle must each get their value out exactly once; a handle
+		// that shares its value slot between callers is a data race before it is a lost value)
 		return c14RaceScenarios(tier)
 	case "C09":
 		return c09RaceScenarios(tier)
@@ -168,14 +170,25 @@ func raceScenarios(prop, tier string) []*Scenario {
 // runRace runs every scenario body of the property free-running (real
 // goroutines, real sync primitives) in a binary built with -race. The race
 // detector's report on stderr is the oracle; the check driver parses it.
-func runRace(prop, tier, name string) *WorkerResult {
+func runRace(prop, tier, name string, budget time.Duration) *WorkerResult {
 	rt.SetMode(rt.Free)
-	runs := tierInt(tier, 30, 300)
+	// every body runs at least minRuns times, and then again and again until its share of the time budget is
+	// used: whether two unsynchronised accesses are seen as a race depends on the goroutines really overlapping
+	// (a later atomic or channel operation orders them for the detector), so more runs see more
+	minRuns := tierInt(tier, 30, 300)
 	st := &Stats{Outcomes: map[string]int64{}}
 	start := time.Now()
 	all := append(schedScenarios(prop, tier), raceScenarios(prop, tier)...)
+	if budget <= 0 || budget > 40*time.Second {
+		budget = 40 * time.Second
+	}
+	if tier != "thorough" && budget > 16*time.Second {
+		budget = 16 * time.Second
+	}
+	share := budget / time.Duration(len(all)+1)
 	for _, sc := range all {
-		for i := 0; i < runs; i++ {
+		t0 := time.Now()
+		for i := 0; i < minRuns || time.Since(t0) < share; i++ {
 			x := &Run{Vals: map[string]interface{}{}}
 			func() {
 				defer func() { _ = recover() }()
@@ -183,6 +196,9 @@ func runRace(prop, tier, name string) *WorkerResult {
 			}()
 			x.cleanup()
 			st.Executions++
+			if i >= 20000 {
+				break
+			}
 		}
 		st.Sample = append(st.Sample, sc.Name)
 	}
